@@ -49,6 +49,10 @@ var peerTree = []world.EntSpec{
 	{Addr: []uint{2}, Type: model.EntityTypeTypeEVSE, Feats: []world.FeatSpec{
 		{ID: 1, Type: model.FeatureTypeTypeLoadControl, Role: model.RoleTypeClient},
 	}},
+	// a sub-entity: it is still known when its parent is announced as removed
+	{Addr: []uint{2, 1}, Type: model.EntityTypeTypeEV, Feats: []world.FeatSpec{
+		{ID: 1, Type: model.FeatureTypeTypeMeasurement, Role: model.RoleTypeClient},
+	}},
 }
 
 func newEnv(connectOnly bool) *env { return newEnvBoth(connectOnly, false) }
@@ -468,6 +472,7 @@ type caseLog struct {
 	Peers    []int    `json:"peers"`
 	Early    bool     `json:"first_peer_before_discovery"`
 	Both     bool     `json:"both_peers_before_discovery"`
+	Gone     bool     `json:"first_peer_connection_removed"`
 }
 
 func (c *caseLog) save() {
@@ -482,6 +487,12 @@ func (c *caseLog) save() {
 
 // runCase delivers the messages and applies the oracle. Returns the first violation.
 func runCase(e *env, log *caseLog) *verdict {
+	if log.Gone {
+		// the connection of the first peer has been removed; what was still in flight on it arrives now
+		e.w.Local.RemoveRemoteDeviceConnection(e.w.Peers[0].Ski)
+		e.w.Peers[0].Gone = true
+		e.w.SyncQuiet(2 * time.Second)
+	}
 	for i, m := range log.Messages {
 		p := e.w.Peers[log.Peers[i]]
 		if v := inject(p, []byte(m)); v != nil {
@@ -507,12 +518,73 @@ func runCase(e *env, log *caseLog) *verdict {
 		return &verdict{"C05/application-callback-" + sig, "the approval callback path panicked in the application's goroutine:\n" + s}
 	default:
 	}
+	// whatever the messages have left in the registries and in the data is used when the application
+	// changes data (notifications go out from its goroutine: nobody recovers a panic there)
+	if v := localChanges(e); v != nil {
+		return v
+	}
+	if log.Gone {
+		// the device connects again and is served like any other peer
+		old := e.w.Peers[0]
+		var v *verdict
+		func() {
+			defer func() {
+				if r := recover(); r != nil {
+					stack := string(debug.Stack())
+					v = &verdict{"C05/reconnect-" + world.PanicSignature(stack), fmt.Sprintf("panic while the device connected again: %v\n%s", r, stack)}
+				}
+			}()
+			e.w.Reconnect(old, peerTree)
+		}()
+		if v != nil {
+			return v
+		}
+		if v := localChanges(e); v != nil {
+			return v
+		}
+	}
 	for _, p := range e.w.Peers {
 		if v := probe(e, p); v != nil {
 			return v
 		}
 	}
 	return nil
+}
+
+// localChanges: the application sets the data of both server features (which notifies the subscribers)
+// on a goroutine of its own; a panic or a call that does not return is the stack's doing.
+func localChanges(e *env) *verdict {
+	done := make(chan *verdict, 1)
+	go func() {
+		defer func() {
+			if r := recover(); r != nil {
+				stack := string(debug.Stack())
+				sig := world.PanicSignature(stack)
+				if sig == "" {
+					sig = "panic/unknown"
+				}
+				done <- &verdict{"C05/application-goroutine-" + sig, fmt.Sprintf("a data change by the application after the messages panicked: %v\n%s", r, stack)}
+				return
+			}
+			done <- nil
+		}()
+		f := gen.ByFunction(model.FunctionTypeMeasurementListData)
+		e.meas.SetData(f.Fn, refmodel.Payload(f, []reflect.Value{mkItem(f, 0), mkItem(f, 2)}))
+		lf := gen.ByFunction(model.FunctionTypeLoadControlLimitListData)
+		e.lc.SetData(lf.Fn, refmodel.Payload(lf, []reflect.Value{mkItem(lf, 0), mkItem(lf, 1)}))
+	}()
+	select {
+	case v := <-done:
+		e.w.SyncQuiet(2 * time.Second)
+		for _, p := range e.w.Peers {
+			p.Cap.Drain()
+		}
+		return v
+	case <-time.After(10 * time.Second):
+		buf := make([]byte, 1<<18)
+		n := runtime.Stack(buf, true)
+		return &verdict{"C05/wedge/application-data-change-does-not-return", "SetData of the application did not return within 10 s\n" + string(buf[:n])}
+	}
 }
 
 func TestMutatedMessages(t *testing.T) { rapid.Check(t, world.Prop(mutatedProp)) }
@@ -523,12 +595,15 @@ func FuzzMutated(f *testing.F) { f.Fuzz(rapid.MakeFuzz(world.Prop(mutatedProp)))
 
 func mutatedProp(t *rapid.T) {
 	{
-		mode := rapid.IntRange(0, 5).Draw(t, "beforeDiscovery")
-		early, both := mode == 0, mode == 1
+		mode := rapid.IntRange(0, 6).Draw(t, "beforeDiscovery")
+		early, both, gone := mode == 0, mode == 1, mode == 6
 		e := newEnvBoth(early, both)
 		defer e.w.Teardown()
 		n := rapid.IntRange(1, 5).Draw(t, "messages")
-		log := &caseLog{Test: "TestMutatedMessages", Early: early, Both: both}
+		log := &caseLog{Test: "TestMutatedMessages", Early: early, Both: both, Gone: gone}
+		if gone {
+			world.Label("env/first-peer-connection-removed")
+		}
 		if both {
 			world.Label("env/both-peers-before-discovery")
 		}
@@ -561,7 +636,7 @@ func mutatedProp(t *rapid.T) {
 		}
 		log.save()
 		v := runCase(e, log)
-		world.Record(world.Hash(descr, early), reached, fmt.Sprintf("messages/%d", n))
+		world.Record(world.Hash(descr, early, gone), reached, fmt.Sprintf("messages/%d", n))
 		if reached && world.WantSample() {
 			world.Sample(map[string]any{"messages": descr, "first_peer_before_discovery": early, "first_message": json.RawMessage(log.Messages[0])})
 		}
